@@ -12,10 +12,11 @@ pub fn c15(ctx: &Ctx, subj: &dyn DynSubject, ty: &Ty, rep: &mut Report) {
         let mut ent = Ent::new(ent);
         self_check(subj, v)?;
         let (bytes, _) = ser_bytes(subj, v)?;
-        let enc = model_enc_fit(ctx, subj, ty, v, bytes.len(), log)?;
-        if enc.tags.is_empty() {
+        // (whether the value holds a tagged sum at all is a property of the value, not of the stream's length)
+        if model_enc(ctx, subj, ty, v)?.tags.is_empty() {
             return Ok(());
         }
+        let enc = model_enc_fit(ctx, subj, ty, v, bytes.len(), log)?;
         // (1) every variant written maps back (both modes)
         for t in &enc.tags {
             log.classes.push(format!("variant:{}#{}", t.kind.split(' ').next().unwrap_or(""), t.value.min(20)));
@@ -33,7 +34,11 @@ pub fn c15(ctx: &Ctx, subj: &dyn DynSubject, ty: &Ty, rep: &mut Report) {
             Ok(Err(e)) => return Err(Fail::new(&format!("tag-roundtrip-eps-error:{}", err_name(&e)), format!("ε-copy of valid tags failed: {:?}", e))),
             Err(p) => return Err(Fail::new(&format!("tag-roundtrip-eps-panic:{}", panic_class(&p)), format!("ε-copy of valid tags panicked: {}", p))),
         }
-        // (2) foreign tags at a selection of sites
+        // (2) foreign tags at a selection of sites (positions come from the format: not available if the stream
+        // has another length, which C06 reports)
+        if enc.tags.is_empty() {
+            return Ok(());
+        }
         let mut sites: Vec<usize> = vec![0, enc.tags.len() - 1];
         while sites.len() < max_sites.min(enc.tags.len()) + 2 {
             sites.push(ent.pick(enc.tags.len()));
